@@ -120,7 +120,7 @@ fn shape_dims(s: &Shape) -> String {
 
 fn main() {
     let ctx = Ctx::from_args("C04");
-    let ncases = ctx.n(3000, 150000);
+    let ncases = ctx.n(3000, 600000);
     let acc = ctx.parallel(|shard, nshards| {
         let mut acc = Acc::new();
         for ci in 0..ncases {
